@@ -165,6 +165,21 @@ CLAIMED = {
         "C13's business. Known finding C14-refused-add-opens-bar listed with a matcher; two defects repaired by fix: commits "
         "(ae0783e rest with an instrument, 79bbf45 from_chords rests).",
    design="§4 C14"),
+ "C15": dict(
+   text="Explicit-heap models in Lean. memo_transparent: with results handed out as fresh cells (what the repaired code does - tied "
+        "by the return expressions regenerated from the source), after ANY history of queries and caller mutations of returned "
+        "lists every query returns its pure value (state invariant by induction); ref_counterexample refutes the unrepaired "
+        "aliasing. created_are_owned / class_default_untouched / instances_independent for any history of instance operations, "
+        "with all_classes_safe (static, regenerated: every class-level list/dict that a method mutates in place is rebound by "
+        "__init__, for all container and MIDI classes) and no_mutable_defaults. lookup_stateless: for ANY strictly increasing "
+        "positive 129-entry table and ANY lookup history the answer with position memory equals the stateless answer (binary "
+        "search invariant + memory invariant) - the failed first proof attempt exposed a real IndexError, now fixed. Tie B: "
+        "random histories vs the heap model and a cold-interpreter battery, introspection-driven argument/result aliasing over "
+        "every public function, sibling-instance scripts, lookups vs a freshly imported module.",
+   note=TRUST + "For functions that only read their arguments the Lean statement is trivial (pure functions); that clause is carried by "
+        "the introspection-driven harness. Four defects repaired by fix: commits (63e0c48, a024b61, 3c0ca1c, 44ee165) plus "
+        "5e2170b (substitute) shared with C08.",
+   design="§4 C15"),
  "C04": dict(
    text="Whole-table kernel evaluation (decide +kernel) of everything the statement says about each of the 30 keys, the 15 "
         "relative couples, the key objects and signature<->key inversion; unbounded theorems for rejections (any string, any "
